@@ -2,9 +2,9 @@ package main
 
 import (
 	"crypto/sha256"
-	"hash/fnv"
 	"encoding/json"
 	"fmt"
+	"hash/fnv"
 	"strconv"
 	"time"
 
@@ -415,13 +415,13 @@ func sortStrings(s []string) {
 func init() {
 	register(&CheckDef{
 		ID: "C02", Build: "instr", Run: c0203Run("meaning"), RunCase: c0203RunCase("meaning"),
-		Rule: "states = reference-graph alphabet (h/graphgen.go): every digraph on <= n nodes reachable from the entry node, swept against every placement of the nodes over documents in 7 directory relations, every $ref spelling, every keyword position of an edge, every entry element (definition, parameter, response, path item, chains of parameter/response/path-item refs over 1-3 documents), target shapes, names needing escapes, AbsoluteCircularRef on/off; each executed by the real ExpandSpec under every map iteration order within the bound; oracle = bisimilarity of every root element of input and output universes (reference model in h/model.go); non-trivial = graph with at least one edge",
+		Rule:        "states = reference-graph alphabet (h/graphgen.go): every digraph on <= n nodes reachable from the entry node, swept against every placement of the nodes over documents in 7 directory relations, every $ref spelling, every keyword position of an edge, every entry element (definition, parameter, response, path item, chains of parameter/response/path-item refs over 1-3 documents), target shapes, names needing escapes, AbsoluteCircularRef on/off; each executed by the real ExpandSpec under every map iteration order within the bound; oracle = bisimilarity of every root element of input and output universes (reference model in h/model.go); non-trivial = graph with at least one edge",
 		Assumptions: []string{"generated inputs are well-formed: every $ref resolvable, no id, no $ref siblings; ill-formed ones belong to C04/C08", "RFC 3986 resolution of the oracle is net/url.ResolveReference, independent of the library's normalizer", "a spurious error is judged by C08, a crash or runaway by C04"},
 		MinOutcomes: 1,
 	})
 	register(&CheckDef{
 		ID: "C03", Build: "instr", Run: c0203Run("cutpoints"), RunCase: c0203RunCase("cutpoints"),
-		Rule: "same state space and executions as C02; oracle = every $ref left at a schema/parameter/response/path-item position resolves from the root location to a location on a reference cycle of the input, none remains when no cycle is reachable, acyclic outputs are byte-identical across map orders, remaining refs are absolute canonical URLs with AbsoluteCircularRef and relative (fragment-only into the root) without; non-trivial = graph with at least one edge",
+		Rule:        "same state space and executions as C02; oracle = every $ref left at a schema/parameter/response/path-item position resolves from the root location to a location on a reference cycle of the input, none remains when no cycle is reachable, acyclic outputs are byte-identical across map orders, remaining refs are absolute canonical URLs with AbsoluteCircularRef and relative (fragment-only into the root) without; non-trivial = graph with at least one edge",
 		Assumptions: []string{"cycle membership is decided on the location graph of the input universe (children + reference edges)", "a relative form is demanded only when the target shares scheme and authority with the root"},
 		MinOutcomes: 1,
 	})
